@@ -86,7 +86,8 @@ def vres_term(r):
 
 
 def tcfg_term(t):
-    dfl = C("DConst", t["dflt"][1]) if t["dflt"][0] == "const" else C("DCall", opt(t["dflt"][1]))
+    dfl = C("DObj") if t["dflt"][0] == "obj" else \
+        C("DConst", t["dflt"][1]) if t["dflt"][0] == "const" else C("DCall", opt(t["dflt"][1]))
     return C("Build_tcfg", C({"event": "KEvent", "prop": "KProp"}.get(t["kind"], "KTrait")), bool(t["hv"]),
              [(a, vres_term(r)) for a, r in t["vld"]], bool(t["orig"]), dfl,
              C({"none": "PNone", "ok": "POk", "raise": "PRaise"}[t["post"]]), bool(t["cmpnone"]),
@@ -156,6 +157,13 @@ def gen_trait(rnd, ctx, P):
         dflt = ["const", rnd.choice([A_NONE] + list(range(P)))]
     else:
         dflt = ["call", rnd.choice([None] + list(range(P)) + list(range(P)))]
+    if kind == "trait" and rnd.random() < 0.12:
+        # a container trait: default = new container object (call_class); every pool value is rejected
+        hv, vld, dflt = True, [[a, "reject"] for a in range(P + 1)], ["obj"]
+        t = dict(kind=kind, hv=True, vld=vld, orig=False, dflt=dflt, post="none", cmpnone=False,
+                 handlers=[rnd.random() < 0.35 for _ in range(rnd.choice([0, 0, 1, 2]))])
+        ctx.count("trait:container-default/handlers=%d" % len(t["handlers"]))
+        return t
     t = dict(kind=kind, hv=hv, vld=vld, orig=rnd.random() < 0.2, dflt=dflt,
              post=rnd.choice(["none", "none", "ok", "raise"]), cmpnone=rnd.random() < 0.25,
              handlers=[] if kind == "prop" else [rnd.random() < 0.35 for _ in range(rnd.choice([0, 0, 1, 2, 3]))])
@@ -212,6 +220,13 @@ def corpus():
                                    traits=[dict(base, orig=orig, dflt=["call", d], post=post, handlers=handlers)],
                                    ops=[["get", 0], ["def", 0], ["set", 0, 0], ["get", 0], ["del", 0], ["def", 0],
                                         ["set", 0, 3], ["del", 0], ["get", 0]]))
+    # container traits: default value = a new container object built by call_class, with and without handlers
+    for handlers in ([], [False], [True, False]):
+        for reraise in (False, True):
+            cs.append(dict(pool=4, reraise=reraise,
+                           traits=[dict(base, vld=[[a, "reject"] for a in range(5)], dflt=["obj"], handlers=handlers)],
+                           ops=[["get", 0], ["get", 0], ["set", 0, 1], ["del", 0], ["get", 0], ["del", 0], ["del", 0],
+                                ["def", 0], ["val", 0, 2], ["set", 0, 4]]))
     # property traits: plain and validated (setattr_validate_property), setter storing / dropping / raising,
     # getter raising
     for hv in (False, True):
@@ -448,22 +463,32 @@ def crash_stream(ctx, programs, sanitize=False, tag="api"):
 
 
 def finalizer_stream(ctx, sanitize=False):
+    _finalizer_run(ctx, sanitize, None)
+    # its own subprocess: a listed finding that kills the interpreter must not hide the other scenarios
+    _finalizer_run(ctx, sanitize, "delegate-replaced")
+    _finalizer_run(ctx, sanitize, "trait-removed")
+    _finalizer_run(ctx, sanitize, "trait-removed-default")
+    _finalizer_run(ctx, sanitize, "trait-removed-tpc")
+
+
+def _finalizer_run(ctx, sanitize, only):
     """gc.collect() (and touching / resurrecting the owner) from finalisers that run INSIDE the teardown of HasTraits
     objects, containers, trait definitions and handlers; own subprocess, PYTHONMALLOC=debug (a use of freed memory is
     fatal, not silent)."""
-    log = os.path.join(ctx.scratch, "finalizers%s.log" % ("_asan" if sanitize else ""))
+    log = os.path.join(ctx.scratch, "finalizers%s%s.log" % ("_" + only if only else "", "_asan" if sanitize else ""))
     old = os.environ.get("PYTHONMALLOC")
     if not sanitize:
         os.environ["PYTHONMALLOC"] = "debug"
     try:
-        rc, out, err = ctx.run_driver(CRASH_DRIVER, dict(finalizers=True, log=log), sanitize=sanitize, timeout=600)
+        rc, out, err = ctx.run_driver(CRASH_DRIVER, dict(finalizers=True, log=log, only=only), sanitize=sanitize,
+                                      timeout=600)
     finally:
         if old is None:
             os.environ.pop("PYTHONMALLOC", None)
         else:
             os.environ["PYTHONMALLOC"] = old
-    label = "no crash when finalisers collect garbage / touch the owner during teardown (%s)" % (
-        "clang ASan+UBSan" if sanitize else "gcc build, PYTHONMALLOC=debug")
+    label = "no crash when finalisers / re-entrant hooks collect garbage, touch the owner or replace values in use%s (%s)" % (
+        " [%s]" % only if only else "", "clang ASan+UBSan" if sanitize else "gcc build, PYTHONMALLOC=debug")
     lines = [l[2:] for l in (open(log).read().splitlines() if os.path.exists(log) else []) if l.startswith("F ")]
     if rc == 0 and out is not None:
         ctx.obligation(label, True, "%d scenarios" % (len(lines) - 1))
@@ -476,7 +501,8 @@ def finalizer_stream(ctx, sanitize=False):
                  no_input=True)
         return
     at = lines[-1] if lines else "?"
-    ctx.obligation(label, False, err[-600:])
+    known = any(e.get("status") == "known" and e.get("key") == "crash/finalizer/%s" % at for e in ctx.known)
+    ctx.obligation(label, known, ("listed known finding; " if known else "") + err[-600:])
     ctx.fail("crash/finalizer/%s" % at,
              "the interpreter died (rc=%s%s) in finaliser scenario '%s' (a finaliser runs gc.collect() / touches its owner "
              "while a HasTraits object, container, trait or handler is being torn down): %s" % (
